@@ -95,6 +95,20 @@ impl Visitor<Diagnostic> for SymbolTable<'_, Id, DummyNode> {
         ret
     }
 
+    fn visit_configuration_declaration(
+        &mut self,
+        node: &ironplc_dsl::configuration::ConfigurationDeclaration,
+    ) -> Result<(), Diagnostic> {
+        // The global variables belong to the configuration. A program,
+        // function or function block declares the global variables that it
+        // uses as external variables so the global variables must not stay
+        // visible for the declarations that are visited after the configuration.
+        self.enter();
+        let ret = node.recurse_visit(self);
+        self.exit();
+        ret
+    }
+
     fn visit_var_decl(&mut self, node: &VarDecl) -> Result<Self::Value, Diagnostic> {
         self.add_if(node.identifier.symbolic_id(), DummyNode {});
         node.recurse_visit(self)
